@@ -250,3 +250,26 @@ Example lookup_by_name_repaired_on_witness :
   let s' := apply_events true true [] [] wit_before wit_batch in
   option_map m_id (nget [120] (by_name s')) = Some 2 /\ option_map m_id (nget [121] (by_name s')) = Some 1.
 Proof. vm_compute. split; reflexivity. Qed.
+
+(* ---- F-C20c: version numbers of compact journals are private to each journal ---- *)
+Definition c_x1 : event := Ev MetricEvent 1 1 [120] 1 0 0 0 0 (Dt false false false 0 0).
+Definition c_x2 : event := Ev MetricEvent 1 2 [120] 1 0 0 0 0 (Dt false false false 5 0).
+Definition c_x3 : event := Ev MetricEvent 1 3 [120] 1 0 0 0 0 (Dt false false false 0 0).   (* the edit undone *)
+Definition upd0 (j : journal) (src : list event) (lk : Z) : journal :=
+  match apply_update (fun _ => 0) j src lk with Some (j', _) => j' | None => j end.
+Definition c_L : journal := upd0 (upd0 (empty_journal true) [c_x1] 1) [c_x3] 3.        (* saw versions 1 and 3 *)
+Definition c_A : journal := upd0 (empty_journal true) [c_x2] 2.                        (* started at version 2 *)
+Definition c_agent : journal :=
+  upd0 (empty_journal false) (map wire (journal_diff (fun _ => 0) c_A 0 1000 1000000)) 2.
+
+(* the aggregator journal L holds the source's latest content (under its OLD version number 1); an agent that synced
+   from the other compact journal A (cursor 2) and now follows L is never sent anything, yet holds different content *)
+Theorem compact_cursor_not_transferable :
+  exists (L agent : journal) (latest : event),
+    map (fun e => set_ver e 0) (j_entries L) = [set_ver latest 0] /\
+    journal_diff (fun _ => 0) L (j_loader agent) 1000 1000000 = [] /\
+    map (fun e => set_ver e 0) (j_entries agent) <> map (fun e => set_ver (wire e) 0) (j_entries L).
+Proof.
+  exists c_L, c_agent, (match compact_event c_x3 with Some e => e | None => c_x3 end). vm_compute.
+  split; [reflexivity|]. split; [reflexivity|]. discriminate.
+Qed.
